@@ -106,6 +106,8 @@ def check(ctx, kw, sig, _derived=False):
         sch = kw.get("scheme", "")
         nroute = 0
         for tag, fn in (("with_port(default)", lambda: u.with_port(DEFAULT[sch]) if sch in DEFAULT else None), ("with_scheme", lambda: u.with_scheme("https" if sch != "https" else "http")),
+                        # an absolute URL WITHOUT a scheme ('//host/...'): still absolute, still round-trips
+                        ("with_scheme('')", lambda: u.with_scheme("")), ("build(no scheme)", lambda: URL.build(**{k_: v_ for k_, v_ in kw.items() if k_ != "scheme"})),
                         ("with_port(443)+with_scheme(https)", lambda: u.with_port(443).with_scheme("https")), ("with_port(0)", lambda: u.with_port(0)),
                         ("with_query", lambda: u.with_query({"ключ": "знач #1"})), ("update_query", lambda: u.update_query("zz=1&é=ü ö")), ("extend_query", lambda: u.extend_query([("k k", "v&v")])),
                         # mapping queries whose values are LISTS (several values, one value, none at all next to other keys)
@@ -116,7 +118,7 @@ def check(ctx, kw, sig, _derived=False):
                         ("with_user", lambda: u.with_user("новий")), ("with_host", lambda: u.with_host("другой.example")), ("with_name", lambda: u.with_name("имя.txt")),
                         ("with_path", lambda: u.with_path("/новый путь"))):
             nroute += 1
-            if nroute > 4 and (nroute + ctx.evaluations) % 4:
+            if nroute > 6 and (nroute + ctx.evaluations) % 4:
                 continue  # the port/scheme variants always, a rotating quarter of the others
             v = guarded(fn)
             if v is None or is_exc(v):
